@@ -7,7 +7,8 @@
 
     * C11's bridge (`walk_frames_follow_c11`, `walk_frames_follow_c11W`,
       `walk_func_frames_follow_c11[W]`, `instr_ok_follows_c11`)  → §1, §4
-    * C06's bridge (`walk_frames_follow_c06`)                       → §2
+    * C06's bridge (`walk_frames_follow_c06`; with STACK WIN records `walk_frames_follow_c06W`
+      off x86, `walk_cfi_frames_x86W` on x86 — MdProofs/C06EnvW.lean)   → §2
     * C05 `walk_wf` / C03 `c03_walk_bound` (= `stacks_wf`, `stacks_frame_bound`) → §3
 
   Adapter lemmas: `MdProofs/Lemmas/IndexCompose.lean` (among them the one walker fact no theorem
@@ -20,8 +21,10 @@
       them (what C11's table construction needs; true of every parsed file) — vacuous in the
       `mkEnv` branch; `state_function_is_c11` also needs the frame's lookup address ≤ u64::MAX
       (C11's `fill_symbol` panics above it in the model).
-    * §2: `Walk.noWins (winsOf d) = true` (no loaded module's symbol file has STACK WIN records: the
-      `mkEnv` branch — `walk_frames_follow_c06` is a theorem about `mkEnv` only), and the registers
+    * §2: `state_cfi_frames_follow_c06`: `Walk.noWins (winsOf d) = true` (the `mkEnv` branch);
+      `state_cfi_frames_follow_c06W`: `noWins = false` and CPU ≠ x86 (the `mkEnvW` branch);
+      `state_cfi_frames_follow_c06_nonx86`: CPU ≠ x86 only; `state_cfi_frames_x86W`: x86 with STACK
+      WIN records, a weaker conclusion (`CfiFrameX86`), no register hypothesis. For `FollowsC06` the registers
       of the dump's context records are below 2^64 (`DumpRegsOk`, from which C06's `CtxOk` of every
       start context is PROVED: `startCtx_regsOk`, `toCtx_ok`). Both byte orders: the stack memory of
       the statement is `walkMem d …`, which carries `be := d.bigEndian`.
